@@ -90,6 +90,15 @@ def render_alt(a):
     return "%s," % body
 
 
+def render_prec(a):
+    out = ""
+    if a.get("lev", -1) >= 0:
+        out += '#[precedence(level="%d")] ' % a["lev"]
+    if a.get("assoc"):
+        out += '#[assoc(side="%s")] ' % a["assoc"]
+    return out
+
+
 def render(sg, algo="lane", backend="table"):
     import core
     lines = ["use crate::rt::*;", "use crate::kids;"]
@@ -106,7 +115,7 @@ def render(sg, algo="lane", backend="table"):
         head = it["name"] + ("<%s>" % ", ".join(it["params"]) if it["params"] else "")
         vis = "pub " if it["name"] in sg["starts"] else ""
         ty = {"V": ": V", "unit": ": ()", "infer": ""}[it["kind"]]
-        body = "\n".join("    " + render_alt(a) for a in it["alts"])
+        body = "\n".join("    " + render_prec(a) + render_alt(a) for a in it["alts"])
         lines.append("%s%s%s = {\n%s\n};" % (vis, head, ty, body))
     return "\n".join(lines) + "\n"
 
@@ -140,7 +149,9 @@ def eval_case(sg, start, n, inject):
                            "chars": cond["pat"].get("chars", [])}
             alts.append({"cond": cond, "rhs": [e for e in a["rhs"] if e["k"] not in ("L", "R")],
                          "P": alt_P(a, it["kind"] == "unit")})
-        items.append({"name": it["name"], "params": it["params"], "kind": it["kind"], "alts": alts})
+        items.append({"name": it["name"], "params": it["params"], "kind": it["kind"], "alts": alts,
+                      "prec": bool(it.get("prec")), "lev": [a.get("lev", -1) for a in it["alts"]],
+                      "assoc": [a.get("assoc", "") for a in it["alts"]]})
     return {"id": "%s@%s" % (sg["id"], start), "ts": list(sg["ts"]), "start": start, "n": n, "inject": inject,
             "sugar": {"items": items, "tchars": [{"n": t, "cs": list(t)} for t in sg["ts"]]}}
 
@@ -300,3 +311,66 @@ def macro_grammar(rng, idx):
                 if a["cond"].get("on") and a["cond"].get("lhs") == old:
                     a["cond"]["lhs"] = "TA"
     return sg
+
+
+def precmac_grammar(rng, idx):
+    """a precedence-annotated nonterminal whose recursive occurrences also sit inside macro arguments, options and
+    groups (the documentation's tiers count them all, left to right)"""
+    ts = ["a", "b", "c", "d"]
+    tag = [0]
+
+    def nt():
+        tag[0] += 1
+        return tag[0]
+
+    items = []
+    macros = [{"name": "Bx", "params": ["T"], "kind": "V", "alts": [alt([PARAM("T", True)], "user", nt())]}]
+    if rng.random() < 0.6:
+        macros.append({"name": "Pr", "params": ["X", "Y"], "kind": "V",
+                       "alts": [alt([PARAM("X", True), T(rng.choice(["c", "d"])), PARAM("Y", True)], "usera", nt())]})
+    if rng.random() < 0.4:
+        macros.append({"name": "Ps", "params": ["X"], "kind": "V",
+                       "alts": [alt([PARAM("X", True), T("d")], "usera", nt())]})
+
+    def slot():
+        r = rng.random()
+        if r < 0.3:
+            return NT("E", True)
+        if r < 0.7:
+            return MAC("Bx", [NT("E")], True)
+        if r < 0.8 and len(macros) > 1:
+            m = rng.choice(macros[1:])
+            return MAC(m["name"], [NT("E") for _ in m["params"]], True)
+        if r < 0.9:
+            return GRP([T(rng.choice(["c", "d"])), NT("E", True)], True)
+        return MAC("Bx", [MAC("Bx", [NT("E")])], True)
+
+    alts = [dict(alt([T("a", True)], "user", nt()), lev=rng.choice([0, 1]))]
+    if rng.random() < 0.4:
+        alts.append(dict(alt([T("d"), NT("E", True), T("d")], "user", nt())))
+    lev = alts[0]["lev"]
+    for _ in range(rng.choice([1, 2, 2])):
+        lev += rng.choice([1, 2])
+        shape = rng.random()
+        op = rng.choice(["b", "c"])
+        if shape < 0.45:       # infix
+            rhs = [slot(), T(op), slot()]
+        elif shape < 0.65:     # prefix form with two operands
+            rhs = [T(op), slot(), T("d"), slot()]
+        elif shape < 0.8:      # ternary
+            rhs = [slot(), T(op), slot(), T("d"), slot()]
+        elif shape < 0.9:      # prefix
+            rhs = [T(op), slot()]
+        else:                  # postfix
+            rhs = [slot(), T(op)]
+        a = dict(alt(rhs, rng.choice(["user", "usera"]), nt()), lev=lev)
+        side = rng.choice(["left", "right", "none", "all", ""])
+        if side:
+            a["assoc"] = side
+        alts.append(a)
+        if rng.random() < 0.3:     # a second alternative on the same level, inheriting level and associativity
+            alts.append(alt([slot(), T("d" if op == "b" else "b"), slot()], "user", nt()))
+    items.append({"name": "E", "params": [], "kind": "V", "alts": alts, "prec": True})
+    items += macros
+    return {"id": "q%04d" % idx, "ts": ts, "starts": ["E"], "items": items, "sugar": True, "no_machine": True,
+            "nts": ["E"], "prods": [], "kinds": {"E": "V"}, "precmac": True}
